@@ -467,3 +467,87 @@ Theorem C03_gen_not_found_only_if_none : forall R cls rq,
   not_found (gen_call_view R cls rq) -> forall x, In x (tried R cls rq) -> qualifies rq x = false.
 Proof. exact gen_not_found_only_if_none. Qed.
 Print Assumptions C03_gen_not_found_only_if_none.
+
+(* ==== locality of registration (Proofs/C03_loc.v) *)
+Require Import Verif.Proofs.C03_loc.
+
+(* the adapter found at a slot after ANY sequence of add_view calls is the one the registrations of that slot alone
+   (in their order) produce; registrations for other contexts, routes, names or classifiers never change it *)
+Theorem C03_register_all_slot_local : forall ao regs s vt,
+  register_all ao regs s vt = register_all ao (slot_regs regs s) s vt.
+Proof. exact register_all_slot_local. Qed.
+Print Assumptions C03_register_all_slot_local.
+
+(* register_view writes nothing outside the slot of the view it registers *)
+Theorem C03_register_view_frame : forall ao R v s' vt,
+  r_slot v <> s' -> register_view ao R v s' vt = R s' vt.
+Proof. exact register_view_frame. Qed.
+Print Assumptions C03_register_view_frame.
+
+(* a lookup is a function of the registrations of the looked-up classifier and view name *)
+Theorem C03_lookup_ignores_other_names : forall ao regs cls rq,
+  call_view (register_all ao regs) cls rq =
+  call_view (register_all ao (filter (relevant cls (q_view_name rq)) regs)) cls rq.
+Proof. exact lookup_ignores_other_names. Qed.
+Print Assumptions C03_lookup_ignores_other_names.
+
+(* the slot key computed two ways (shape of seeded change C03-18): with the same key it is the model; with another
+   lookup / unregister key two views of one slot never merge -- the second replaces the first (witness) *)
+Theorem C03_register_view2_same_key : forall ao R v, register_view2 ao R v (r_slot v) = register_view ao R v.
+Proof. exact register_view2_same_key. Qed.
+Print Assumptions C03_register_view2_same_key.
+
+Theorem C03_register_view2_other_key_refuted :
+  exists ao v1 v2 sl,
+    r_slot v1 = r_slot v2 /\ r_phash v1 <> r_phash v2 /\ sl <> r_slot v1 /\
+    (exists m, register_all ao [v1; v2] (r_slot v1) IMultiView = Some (CMulti m)) /\
+    register_view2 ao (register_view2 ao reg_empty v1 sl) v2 sl (r_slot v1) IMultiView = None /\
+    register_view2 ao (register_view2 ao reg_empty v1 sl) v2 sl (r_slot v1) IView = Some (CView v2).
+Proof. exact register_view2_other_key_refuted. Qed.
+Print Assumptions C03_register_view2_other_key_refuted.
+
+(* ==== the interleaving of registrations of different slots is irrelevant (Proofs/C03_loc2.v): no hypothesis on
+   phashes, orders, accept= or overrides -- strengthens C03_lookup_order_insensitive_partial for this kind of reordering *)
+Require Import Verif.Proofs.C03_loc2.
+
+Theorem C03_lookup_interleaving : forall ao l1 l2 cls rq,
+  (forall s, slot_regs l1 s = slot_regs l2 s) ->
+  call_view (register_all ao l1) cls rq = call_view (register_all ao l2) cls rq.
+Proof. exact lookup_interleaving. Qed.
+Print Assumptions C03_lookup_interleaving.
+
+Theorem C03_lookup_swap_other_slots : forall ao l1 a b l2 cls rq,
+  r_slot a <> r_slot b ->
+  call_view (register_all ao (l1 ++ a :: b :: l2)) cls rq = call_view (register_all ao (l1 ++ b :: a :: l2)) cls rq.
+Proof. exact lookup_swap_other_slots. Qed.
+Print Assumptions C03_lookup_swap_other_slots.
+
+(* ==== ties after in-place replacements (Proofs/C03_ties.v) *)
+Require Import Verif.Proofs.C03_ties.
+
+(* a re-registration whose phash is already in views (order a function of the phash; any accept=) replaces the entry
+   in place: the (order, phash) sequence of views, the media subsets and the offers are unchanged *)
+Theorem C03_readd_keeps_positions : forall f m v ph acc ao,
+  mv_sorted f m -> In ph (map e_phash (mv_views m)) ->
+  map e_key (mv_views (mv_add m v (f ph) ph acc ao)) = map e_key (mv_views m)
+  /\ mv_media (mv_add m v (f ph) ph acc ao) = mv_media m /\ mv_accepts (mv_add m v (f ph) ph acc ao) = mv_accepts m.
+Proof. exact readd_keeps_positions. Qed.
+Print Assumptions C03_readd_keeps_positions.
+
+Theorem C03_readds_keep_positions : forall f readds m,
+  mv_sorted f m -> Forall (is_readd f m) readds ->
+  map e_key (mv_views (fold_left mv_add_args readds m)) = map e_key (mv_views m).
+Proof. exact readds_keep_positions. Qed.
+Print Assumptions C03_readds_keep_positions.
+
+(* distinct registrations followed by any number of overrides: among entries of equal order, views lists the phashes in
+   the order of their FIRST registration *)
+Theorem C03_ties_in_first_registration_order : forall f (adds : list (reg * Z * text)) readds k,
+  let m0 := fold_left mv_add_args (map plain_add adds) mv_empty in
+  NoDup (map (fun a => snd a) adds) ->
+  Forall (fun a : reg * Z * text => snd (fst a) = f (snd a)) adds ->
+  Forall (is_readd f m0) readds ->
+  filter (fun kp : Z * text => Z.eqb (fst kp) k) (map e_key (mv_views (fold_left mv_add_args readds m0)))
+  = map e_key (filter (same_order k) (map add_entry adds)).
+Proof. exact ties_in_first_registration_order. Qed.
+Print Assumptions C03_ties_in_first_registration_order.
